@@ -4,7 +4,7 @@
    checker chk_C09 that is evaluated on every event the implementation returns. *)
 From Coq Require Import List Ascii String NArith ZArith Bool Arith Lia.
 Import ListNotations.
-Require Import KV Parser ChkCoalesce CoalesceProofs CoalesceCompound.
+Require Import KV Parser ChkCoalesce CoalesceProofs CoalesceCompound ChkNorm NormProofs.
 Local Close Scope N_scope.
 
 (* newEvent: for every record whose keys are pairwise different (a Go map), every field other
@@ -37,6 +37,22 @@ Theorem C09_compound_paths_kept : forall l1 r l2 e0 d,
   In d (m_paths (fold_left route (l1 ++ r :: l2) e0)).
 Proof. exact compound_paths_kept. Qed.
 
+(* setFileObject: the file summary mirrors the PATH record the normalisation selects (Check/ChkNorm.v:
+   the first record at or after the normalisation's path index that is neither PARENT nor UNKNOWN) -
+   path, inode and device always; when the mode parses, the owner ids and the permission bits
+   (mode & 07777, four octal digits) as well *)
+Theorem C09_file_summary_mirrors_selected_path : forall paths hint what op0,
+  paths <> [] ->
+  let p := selected paths hint in
+  let '(f, op, ot, bad) := set_file_object paths hint what op0 in
+  In p paths /\
+  fget (L "path") f = fget (L "name") p /\ fget (L "inode") f = fget (L "inode") p /\ fget (L "device") f = fget (L "rdev") p /\
+  op = match fget (L "name") p with Some v => v | None => op0 end /\
+  (bad = false ->
+     fget (L "uid") f = fget (L "ouid") p /\ fget (L "gid") f = fget (L "ogid") p /\
+     forall ms, fget (L "mode") p = Some ms -> exists mode, oct64 ms = Some mode /\ fget (L "mode") f = Some (oct04 (N.land mode 4095))).
+Proof. exact file_object_mirrors. Qed.
+
 (* an error instead of a partial event: no records, or several records without a SYSCALL record *)
 Theorem C09_error_not_partial : model_event [] = None /\
   forall rs, (2 <= List.length (filter_eoe rs))%nat -> existsb is_syscall (filter_eoe rs) = false -> model_event rs = None.
@@ -56,5 +72,6 @@ Print Assumptions C09_primary_nothing_dropped_partial.
 Print Assumptions C09_result_session.
 Print Assumptions C09_compound_fields_kept.
 Print Assumptions C09_compound_paths_kept.
+Print Assumptions C09_file_summary_mirrors_selected_path.
 Print Assumptions C09_error_not_partial.
 Print Assumptions C09_object_type_variants.
